@@ -22,7 +22,7 @@ TEXT = {
         "engine": "rrtk-mc c19-trace + c19-unchecked in six builds; driver/c19_cfg.py (cross-configuration comparison; other properties' oracles per configuration)",
         "technique": "exhaustive enumeration of the configuration space (6 feature configurations) crossed with bounded-exhaustive workloads (all short event histories of every stream, grids of quantities/states/profiles, device rounds); canonical traces compared across all builds; all 49x49 ill-dimensioned unit pairs in the unchecked builds",
         "text": "The same harness sources are built against rrtk under every configuration; each build writes canonical traces "
-                "of ~190k well-dimensioned cases in 14 sections which must be identical across builds (f32 as values, "
+                "of ~200k well-dimensioned cases in 14 sections (incl. degenerate clocks: repeated and backward timestamps) which must be identical across builds (f32 as values, "
                 "timestamps, categories), powf-dependent sections within a stated tolerance across back ends and exact "
                 "between checked/unchecked; unchecked builds must never panic or reject on any of 2401 unit pairs and 49 "
                 "setter/constructor/converter units; the oracles of C02, C12, C14 (thorough: 14 properties) are re-run "
@@ -30,11 +30,11 @@ TEXT = {
         "note": "Programs = the enumerated workloads; the configuration axis itself is covered completely.",
     },
     "C16": {
-        "engine": "rrtk-mc c16-nary-scratch + c16-terminal-read-scratch + c16-axle-constructor; driver/c16_lifetime.py (compiler probes); thorough: c16_miri.py",
-        "technique": "exhaustive enumeration of all absent/present patterns (2^N, N<=8, plus an error at every position), terminal presence combinations and axle sizes 0..8 with poisoned scratch arrays (hook rrtk_verif); bounded enumeration of a generated family of safe probe programs with rustc's borrow checker as oracle; thorough: the same cases and the accepted probes under Miri",
+        "engine": "rrtk-mc c16-nary-scratch + c16-terminal-read-scratch + c16-axle-constructor + c16-terminal-ops-scratch; driver/c16_lifetime.py (compiler probes); thorough: c16_miri.py",
+        "technique": "exhaustive enumeration of all absent/present patterns (2^N, N<=8, plus an error at every position), terminal presence combinations, all 12^5 (thorough 12^6) connect/disconnect/set_state sequences on 3 terminals, and axle sizes 0..8 with poisoned scratch arrays (hook rrtk_verif); bounded enumeration of a generated family of safe probe programs with rustc's borrow checker as oracle; thorough: the same cases and the accepted probes under Miri",
         "text": "Scratch-slot clause: every pattern for arities 1..8 of sum/product/newest-of, the terminal read and Axle::new "
                 "are executed with the MaybeUninit arrays filled with 0x7F so that any use of an unwritten slot changes the "
-                "result by 3e38 / the timestamp by 9e18; out-of-range terminal indices must panic. Lifetime clause: 77 generated "
+                "result by 3e38 / the timestamp by 9e18; out-of-range terminal indices must panic; after every step of every terminal operation sequence each state read must be explainable by written states. Lifetime clause: 77 generated "
                 "safe programs (11 accessors x drop/move/drop-with-partner x read/write, raw-pointer API probes, controls): "
                 "the compiler accepting one is a violation. 24 known findings (F4: 11 accessors x {drop, move}; F6: "
                 "Borrow::Ptr / BorrowMut::Ptr constructible in safe code).",
@@ -43,11 +43,11 @@ TEXT = {
     },
     "C17": {
         "engine": "rrtk-mc c17-aliasing-seqs; driver/c17_extra.py: downstream crate x 4 feature sets; harness/sched (shuttle DFS)",
-        "technique": "exhaustive controlled-scheduler exploration (shuttle check_dfs, unbounded) of 2-4 thread harnesses on the real reference.rs; stateless bounded-exhaustive operation sequences (15^5 quick / 15^7 thorough x 6 variants) against a one-cell model; configuration enumeration of the caller's feature sets for to_dyn!",
+        "technique": "exhaustive controlled-scheduler exploration (shuttle check_dfs, unbounded) of 2-4 thread harnesses on the real reference.rs; stateless bounded-exhaustive operation sequences (15^5 quick / 15^7 thorough x 6 variants, and one step shorter on 64- and 4096-aligned targets) against a one-cell model; configuration enumeration of the caller's feature sets for to_dyn!",
         "text": "Threads: every interleaving at every Mutex/RwLock operation and yield of 2x1, 2x2, 3x1 increments and 2x1+reader "
                 "(thorough adds 2x3 complete and 3x2, 4x1, 2x2+reader up to a 2e7-schedule cap) for the four lock-backed "
                 "variants: no lost update, no deadlock, no panic. Sequential: all clone/to_dyn/read/write/drop sequences on "
-                "3 handle slots for all six variants against a single-cell + handle-count model incl. the drop flag. "
+                "3 handle slots for all six variants against a single-cell + handle-count model incl. the drop flag, on 8-, 64- and 4096-aligned targets (a memory-fault death of the exploring process is localised by a one-at-a-time re-run and reported with the sequence). "
                 "to_dyn! from a downstream crate with and without features named alloc/std.",
         "note": "shuttle intercepts the lock operations reference.rs performs because the file is compiled against shuttle::sync; "
                 "Arc itself has no scheduling points, which is fine because the property is about the locks.",
@@ -191,10 +191,10 @@ TEXT = {
     "C03": {
         "engine": "rrtk-mc c03-datum-operators + c03-selection-helpers + c03-stream-timestamps + c03-terminal-timestamps + c08 timestamp mode",
         "technique": "exhaustive enumeration of all ordered timestamp pairs/weak orders over an alphabet with equal, adjacent, negative and extreme i64 values for every Datum operator impl x payload type, the replace/latest helpers, every combinator, terminal reads and device updates",
-        "text": "All 81 ordered pairs of {MIN, MIN+1, -2..2, MAX-1, MAX} for each of the 34 Datum operator impls (85 "
+        "text": "All 225 ordered pairs of a 15-value alphabet (MIN, MIN+1, +-1.5e9(+7), -2..2, 2^53(+1), MAX-1, MAX) for each of the 34 Datum operator impls (85 "
                 "payload instantiations, table checked against the source), the selection helpers incl. empty cases, "
-                "the C02 enumeration with the timestamp oracle only, terminal reads and device updates with all weak "
-                "timestamp orders (incl. negative times).",
+                "the C02 enumeration with the timestamp oracle only (two-input combinators on all 225 pairs), terminal reads and "
+                "device updates with all weak timestamp orders, each also realised with timestamps further apart than i64::MAX.",
         "note": "A max-of-timestamps rule depends only on the order relation of its operands, which the alphabet covers "
                 "completely for pairs; payload values fixed.",
     },
